@@ -54,6 +54,8 @@ enum Event {
 }
 enum Cmd {
     Write { t: i64, buf: Vec<u8>, barrier: Option<Arc<Barrier>> },
+    /// make_writer at clock t, then HOLD the RollingWriter (a read guard on the file) until released; then write and drop
+    Hold { t: i64, buf: Vec<u8> },
     Stop,
 }
 
@@ -312,6 +314,28 @@ fn run_life(case: &Value, dir: &Path, gap: Duration) -> Value {
             while let Ok(cmd) = rx.recv() {
                 match cmd {
                     Cmd::Stop => break,
+                    Cmd::Hold { t, buf } => {
+                        __verif::set_thread_clock(Some((t, 0)));
+                        let r = catch_unwind(AssertUnwindSafe(|| {
+                            let mut w = app.make_writer();
+                            {
+                                let mut g = PARK.lock().unwrap();
+                                send_event(Event::Parked(i));
+                                while !g.released[i] {
+                                    g = CV.wait(g).unwrap();
+                                }
+                                g.released[i] = false;
+                            }
+                            let r = w.write_all(&buf).map_err(|e| e.to_string());
+                            drop(w);
+                            r
+                        }));
+                        let r = match r {
+                            Ok(x) => x,
+                            Err(p) => Err(format!("panic: {}", panic_msg(p))),
+                        };
+                        send_event(Event::Done(i, r));
+                    }
                     Cmd::Write { t, buf, barrier } => {
                         __verif::set_thread_clock(Some((t, 0)));
                         if let Some(b) = barrier {
@@ -385,6 +409,55 @@ fn run_life(case: &Value, dir: &Path, gap: Duration) -> Value {
                         Ok(Event::Done(_, r)) => res.push(r.err()),
                         Ok(Event::Parked(_)) => fatal = Some("unexpected park".into()),
                         Err(_) => fatal = Some(format!("timeout in op {}", op)),
+                    }
+                }
+            }
+            // ["hold", [holder, rotator], t, [buf_h, buf_r], t_hold]: the holder obtains its writer at clock t_hold and keeps it;
+            // the rotator calls make_writer at clock t (parking at yield point 1 if it wins a rotation), is released and given
+            // time to reach the file lock while the holder still has its writer; then the holder writes and drops.  One
+            // harness operation: the creation barrier stays outside the window in which a writer is held.
+            "hold" => {
+                let ths: Vec<usize> = op[1].as_array().unwrap().iter().map(|x| x.as_u64().unwrap() as usize % nth).collect();
+                let (h, r) = (ths[0], ths[1]);
+                let mut pending = 0;
+                if h == r {
+                    fatal = Some("hold: holder and rotator must differ".into());
+                } else {
+                    txs[h].send(Cmd::Hold { t: op[4].as_i64().unwrap(), buf: unhex(op[3][0].as_str().unwrap()) }).unwrap();
+                    let mut h_parked = false;
+                    match erx.recv_timeout(wait) {
+                        Ok(Event::Parked(_)) => {
+                            pending += 1;
+                            h_parked = true;
+                        }
+                        Ok(Event::Done(_, e)) => res.push(e.err()),
+                        Err(_) => fatal = Some(format!("timeout in op {}", op)),
+                    }
+                    PARK.lock().unwrap().want[r] = 1;
+                    txs[r].send(Cmd::Write { t: op[2].as_i64().unwrap(), buf: unhex(op[3][1].as_str().unwrap()), barrier: None }).unwrap();
+                    match erx.recv_timeout(wait) {
+                        Ok(Event::Parked(_)) => {
+                            pending += 1;
+                            PARK.lock().unwrap().released[r] = true;
+                            CV.notify_all();
+                            std::thread::sleep(Duration::from_millis(60));
+                        }
+                        Ok(Event::Done(_, e)) => {
+                            PARK.lock().unwrap().want[r] = 0;
+                            res.push(e.err());
+                        }
+                        Err(_) => fatal = Some(format!("timeout in op {}", op)),
+                    }
+                    if h_parked {
+                        PARK.lock().unwrap().released[h] = true;
+                        CV.notify_all();
+                    }
+                    for _ in 0..pending {
+                        match erx.recv_timeout(wait) {
+                            Ok(Event::Done(_, e)) => res.push(e.err()),
+                            Ok(Event::Parked(_)) => fatal = Some("unexpected park".into()),
+                            Err(_) => fatal = Some(format!("timeout in op {}", op)),
+                        }
                     }
                 }
             }
